@@ -6,6 +6,9 @@ Tie
      `_skin_graph(not_special_connectivity)`, `rings_count`, `atoms_rings`, `atoms_rings_sizes`, the ring marks written by
      `calc_labels` (atom `_in_ring`, `_ring_sizes`, bond `_in_ring`), `_canonic_ring`, `_ring_scissors`, `_ring_adjacency`
      are compared with the Lean model (Model/C06Rings.lean) on every case.
+  H (histories): the same K and R comparisons on live objects after every operation of a random edit history — the cached
+     views (`sssr`, `rings_count`, `connected_components`, `atoms_rings*`, marks, `aromatic_rings`, `skin_graph`) must describe
+     the current bonds whatever was read, edited, committed or rolled back before.
   R (relational): the implementation's actual `mol.sssr` is sent to the driver; `checkSssr` (Spec/CycleBasis.lean, soundness
      proved in Props/C06.lean) must accept it (simple cycles of existing non-special bonds, GF(2)-independent,
      count = cyclomatic number) and its size multiset must equal that of the Lean reference minimum cycle basis
@@ -38,7 +41,11 @@ RULE = ('one case = one molecular graph in a concrete atom numbering and dict in
         'and <= 5 rings thorough) of degree <= 4, one representative per isomorphism class of 7-atom (<= 5 rings) and 8-atom '
         '(<= 3 rings) graphs under random renumberings, theta graphs with bridges 1..6, random fused/spiro/bridged ring assemblies '
         'and macrocycles with random coordinate (order 8) and aromatic (order 4) bonds, pendant chains and extra components, '
-        'corpus / handmade / test/*.sdf molecules, each also after random renumbering; a case is '
+        'corpus / handmade / test/*.sdf molecules, each also after random renumbering; plus random EDIT HISTORIES (add/delete '
+        'bond and atom incl. coordinate bonds, committed and rolled-back transactions with reads inside, copy, remap, union, '
+        'substructure, split, kekule/thiele, hydrogen / coordinate-bond / metal standardisation steps) on organometallic, '
+        'aromatic and ring-assembly starts, where after every operation the views of the LIVE object are compared with the '
+        'model of its CURRENT atoms and bonds; a case is '
         'non-trivial when the graph has at least one ring (cyclomatic number >= 1); distinct by the full wire line; plus '
         'random tuples for _canonic_ring/_ring_scissors/_ring_adjacency (non-trivial: length >= 3)')
 TRUSTED = ['harness/wire.py molecule encoder and the field canonicalisers of harness/props/c06.py',
@@ -59,7 +66,8 @@ EXTRA_MODULES = ['Spec.CycleBasis', 'Model.C06Rings']
 FINDINGS_MODULE = 'ChythonModel.Findings.C06'
 
 K_FIELDS = ['cc', 'ccns', 'skin', 'skinns', 'rc', 'ar', 'ars', 'arom', 'marks']
-PROGRAMS = ['MoleculeContainer.connected_components', 'rings._connected_components(not_special_connectivity)',
+PROGRAMS = ['MoleculeContainer add_bond/delete_bond/add_atom/delete_atom/__enter__/__exit__/copy/remap/union/substructure/split + kekule/thiele/explicify_hydrogens/implicify_hydrogens/remove_coordinate_bonds/remove_metals/... (cache discipline of the ring and component views)',
+            'MoleculeContainer.connected_components', 'rings._connected_components(not_special_connectivity)',
             'MoleculeContainer.skin_graph', 'rings._skin_graph(not_special_connectivity)', 'MoleculeContainer.rings_count',
             'MoleculeContainer.sssr', 'MoleculeContainer.atoms_rings', 'MoleculeContainer.atoms_rings_sizes',
             'MoleculeContainer.calc_labels (ring marks)', 'MoleculeContainer.aromatic_rings', 'rings._canonic_ring', 'rings._ring_scissors', 'rings._ring_adjacency']
@@ -439,16 +447,20 @@ def sssr_limit():
     return SSSR_TIME_LIMIT if _timeouts['n'] == 0 else 2
 
 
-def impl_fields(mol):
-    """Run the real code on `mol` (fresh caches). Returns (fields, rings or None, error kind)."""
+def impl_fields(mol, live=False):
+    """Run the real code on `mol`. Returns (fields, rings or None, error kind).
+    `live=False`: `mol` was just built from wire ints (fresh caches); labels are computed here.
+    `live=True`: `mol` is an object with an edit history; only its public views are read, exactly as a caller would see
+    them (no `calc_labels`, no private helper applied to a cached private view)."""
     from chython.algorithms.rings import _connected_components, _skin_graph
     from chython.exceptions import ImplementationError
     f = {}
     f['cc'] = show_components(mol.connected_components)
-    ns = mol.not_special_connectivity
-    f['ccns'] = show_components(_connected_components(ns))
+    if not live:
+        ns = mol.not_special_connectivity
+        f['ccns'] = show_components(_connected_components(ns))
+        f['skinns'] = show_adj(_skin_graph(ns))
     f['skin'] = show_adj(mol.skin_graph)
-    f['skinns'] = show_adj(_skin_graph(ns))
     f['rc'] = str(mol.rings_count)
     try:
         with time_limit(sssr_limit()):
@@ -467,7 +479,8 @@ def impl_fields(mol):
         f['arom'] = '/'.join(canon_ring(r) for r in sorted(tuple(r) for r in mol.aromatic_rings))
     except Exception:
         f['arom'] = 'raise'
-    mol.calc_labels()
+    if not live:
+        mol.calc_labels()
     marks = []
     for n, ms in sorted(mol._bonds.items()):
         a = mol._atoms[n]
@@ -502,20 +515,26 @@ def evaluate(cases, build_ok=True):
         res['disagreements'] += 1
         res['broken'].append((kind, name, detail))
         if len(res['suspects']) < 40:
-            res['suspects'].append(ints)
+            res['suspects'].append(histories.get(id(ints), ints))
     items = []
-    for tag, ints in cases:
+    histories = {}
+    for case in cases:
+        tag, ints = case[0], case[1]
         if _timeouts['n'] >= 8:   # ring perception keeps hanging: stop feeding it, the broken stream is already recorded
             res['dist']['skipped-after-repeated-timeouts'] += 1
             continue
         mol, _ = wire.ints_to_mol(ints)
         adj = ns_adj(mol)
-        fields, rings, err = impl_fields(mol)
+        if len(case) > 2:   # snapshot of a live object taken at the time of the edit history (see run_history)
+            fields, rings, err, hist = case[2]
+            histories[id(ints)] = {'history': hist}
+        else:
+            fields, rings, err = impl_fields(mol)
         if err is not None:
             gap = gap_class(adj)
             res['dist']['sssr-error:' + err + (':' + gap if gap else '')] += 1
             if err.startswith('crash') or not exempt(gap, 'sssr-raises'):
-                broke('relational', 'sssr-raises', f'{tag}: mol.sssr raised {err}; wire={ints}', ints)
+                broke('relational', 'sssr-raises', f'{tag}: mol.sssr raised {err}; wire={ints}{_hist_note(histories, ints)}', ints)
         items.append((tag, ints, fields, rings, err, adj))
     if not build_ok or not items:
         return res
@@ -541,9 +560,13 @@ def evaluate(cases, build_ok=True):
         if '_' in r:
             broke('correspondence', 'driver-answer', f'{tag}: driver answered {rl!r} for {line[:300]}', ints)
             continue
+        renumbered = id(ints) in histories and renumbering_in(histories[id(ints)]['history']['ops'])
         for k in K_FIELDS:
             if k in fields and r.get(k) != fields[k]:   # ring views are absent when sssr raised
-                broke('correspondence', k, f'{tag}: model {k}={r.get(k)!r} impl {k}={fields[k]!r} wire={ints}', ints)
+                if k == 'marks' and renumbered and marks_agree_up_to_basis(r.get(k, ''), fields[k], ints):
+                    d['ring-size-marks-of-the-basis-before-renumbering (known finding class)'] += 1
+                    continue
+                broke('correspondence', k, f'{tag}: model {k}={r.get(k)!r} impl {k}={fields[k]!r} wire={ints}{_hist_note(histories, ints)}', ints)
         # the two independent reference implementations (Lean Horton+greedy, Python Horton+greedy; for <= 6 atoms also
         # the greedy over all simple cycles) must agree on the size multiset of a minimum cycle basis
         pyref = ','.join(map(str, mcb_sizes(adj)[0]))
@@ -563,7 +586,7 @@ def evaluate(cases, build_ok=True):
             if exempt(gap, clause):
                 d[f'{clause}-in:{gap}'] += 1
             else:
-                broke('relational', 'check_sssr', f'{tag}: checker verdict {r.get("chk")} on sssr={rings} wire={ints}', ints)
+                broke('relational', 'check_sssr', f'{tag}: checker verdict {r.get("chk")} on sssr={rings} wire={ints}{_hist_note(histories, ints)}', ints)
             continue
         sizes = ','.join(map(str, sorted(len(x) for x in rings)))
         if r.get('ref') != sizes:
@@ -576,6 +599,55 @@ def evaluate(cases, build_ok=True):
                 if gap.startswith('known:') and len(res['known']) < 3:
                     res['known'].append((ints, sizes, r.get('ref')))
     return res
+
+
+RENUMBERING_OPS = ('remap', 'union')   # union(remap=True) renumbers the labelled atoms of the other molecule
+REMAP_SIG = 'C06/atom-marks/ring-sizes-after-remap'
+
+
+def renumbering_in(ops):
+    return any(op[0] in RENUMBERING_OPS for op in ops)
+
+
+def marks_agree_up_to_basis(model, impl, ints):
+    """After a renumbering the implementation's atom.ring_sizes are those of the minimum cycle basis chosen under the OLD
+    numbers (known finding REMAP_SIG). What does not depend on the choice of basis must still agree exactly: atom.in_ring,
+    bond.in_ring of every non-coordinate bond, `ring_sizes` empty iff not in a ring."""
+    special = set()
+    i = 1
+    for _ in range(ints[0]):
+        n, deg = ints[i], ints[i + 7]
+        for j in range(deg):
+            if ints[i + 8 + 3 * j + 1] == 8:
+                special.add((n, ints[i + 8 + 3 * j]))
+        i += 8 + 3 * deg
+
+    def parse(txt):
+        out = {}
+        for part in txt.split(';'):
+            if not part:
+                continue
+            n, inr, sizes, bonds = part.split(':')
+            out[int(n)] = (inr, bool(sizes), {b.split('=')[0]: b.split('=')[1] for b in bonds.split(',') if b})
+        return out
+    try:
+        a, b = parse(model), parse(impl)
+    except ValueError:
+        return False
+    if a.keys() != b.keys():
+        return False
+    for n in a:
+        if a[n][0] != b[n][0] or a[n][1] != b[n][1] or a[n][2].keys() != b[n][2].keys():
+            return False
+        for m in a[n][2]:
+            if (n, int(m)) not in special and a[n][2][m] != b[n][2][m]:
+                return False
+    return True
+
+
+def _hist_note(histories, ints):
+    h = histories.get(id(ints))
+    return f' after history {json.dumps(h["history"]["ops"])} from start {h["history"]["start"]}' if h else ''
 
 
 def _nbr_counts(ints):
@@ -723,6 +795,226 @@ def iso_classes(n, max_mu):
     return list(level.values())
 
 
+# ------------------------------------------------------------------------------------------------
+# edit histories: the cached ring / component views of a LIVE object must describe its CURRENT bonds
+# ------------------------------------------------------------------------------------------------
+
+READS = ['sssr', 'rings_count', 'connected_components', 'atoms_rings', 'atoms_rings_sizes', 'skin_graph', 'aromatic_rings',
+         'not_special_connectivity', 'connected_components_count', 'rings_graph']
+NULLARY = ['kekule', 'thiele', 'explicify_hydrogens', 'implicify_hydrogens', 'remove_coordinate_bonds', 'remove_metals',
+           'split_metal_salts', 'canonicalize', 'neutralize', 'remove_hydrogen_bonds', 'clean_stereo', 'fix_structure']
+HISTORY_STARTS = ['C1CCCCC1', 'CCCCCC', 'CCC1CCCCC1', 'CCCC.CCC', 'c1ccccc1', 'c1ccc2ccccc2c1', 'C1CC2CCC1C2', 'C1CC1C1CC1',
+                  'c1ccccn1~[Pd](Cl)(Cl)~n1ccccc1', '[Fe]~C1=CC=CC1', 'C1CCOC1~[Mg](Br)C', 'O~[Na+].[Cl-]', 'CC(=O)O~[Cu]~OC(C)=O',
+                  'N~[Pt](~N)(Cl)Cl', 'C1CN~[Ni]~NC1', 'OC(=O)c1ccccc1O', 'C1CC2(C1)CCC2', '[Na+].[O-]c1ccccc1', 'C1=CC=CC=C1',
+                  'O=C1C=CC(=O)C=C1', 'C12C3C4C1C5C2C3C45']
+
+
+class Abort(Exception):
+    pass
+
+
+def apply_op(mol, op):
+    """execute one concrete, JSON-encoded public operation on the live molecule; returns the object to go on with"""
+    k = op[0]
+    if k == 'read':
+        for name in op[1]:
+            try:
+                getattr(mol, name)
+            except Exception:
+                pass
+    elif k == 'add_bond':
+        mol.add_bond(op[1], op[2], op[3])
+    elif k == 'delete_bond':
+        mol.delete_bond(op[1], op[2])
+    elif k == 'add_atom':
+        n = mol.add_atom(op[1], op[2])
+        if op[3]:
+            mol.add_bond(n, op[3], op[4])
+    elif k == 'delete_atom':
+        mol.delete_atom(op[1])
+    elif k == 'txn':
+        try:
+            with mol:
+                for sub in op[2]:
+                    apply_op(mol, sub)
+                if not op[1]:
+                    raise Abort
+        except Abort:
+            pass
+    elif k == 'copy':
+        return mol.copy(keep_sssr=bool(op[1]), keep_components=bool(op[1]))
+    elif k == 'remap':
+        mol.remap({a: b for a, b in op[1]})
+    elif k == 'union':
+        other, _ = wire.ints_to_mol(op[1], calc=True)
+        mol.union(other, remap=True, copy=False)
+    elif k == 'substructure':
+        return mol.substructure(op[1])
+    elif k == 'split':
+        parts = mol.split()
+        return parts[op[1] % len(parts)]
+    elif k in NULLARY:
+        getattr(mol, k)()
+    else:
+        raise ValueError('unknown op ' + str(k))
+    return mol
+
+
+def _edit_op(rng, mol, allow_atoms=True):
+    """one random bond-set edit that is valid for the current state"""
+    atoms = list(mol._atoms)
+    bonds = [(n, m, b.order) for n, ms in mol._bonds.items() for m, b in ms.items() if n < m]
+    kind = rng.choice(['add_bond', 'add_bond', 'delete_bond', 'delete_bond', 'add_atom', 'delete_atom'] if allow_atoms
+                      else ['add_bond', 'delete_bond'])
+    if kind == 'add_bond' and len(atoms) >= 2:
+        for _ in range(20):
+            a, b = rng.sample(atoms, 2)
+            if b not in mol._bonds[a] and len(mol._bonds[a]) < 4 and len(mol._bonds[b]) < 4:
+                return ['add_bond', a, b, rng.choice([1, 1, 1, 2, 8, 8])]
+    if kind == 'delete_bond' and bonds:
+        special = [x for x in bonds if x[2] == 8]
+        a, b, _ = rng.choice(special) if special and rng.random() < 0.5 else rng.choice(bonds)
+        return ['delete_bond', a, b] if rng.random() < 0.5 else ['delete_bond', b, a]
+    if kind == 'delete_atom' and len(atoms) > 2:
+        return ['delete_atom', rng.choice(atoms)]
+    new = max(atoms, default=0) + rng.choice([1, 1, 3])
+    att = rng.choice(atoms) if atoms and rng.random() < 0.8 else 0
+    return ['add_atom', rng.choice(['C', 'C', 'N', 'O', 'Fe']), new, att, rng.choice([1, 1, 8])]
+
+
+def _next_op(rng, mol):
+    r = rng.random()
+    if r < 0.40:
+        return _edit_op(rng, mol)
+    if r < 0.65:   # transaction, committed or rolled back, with reads inside
+        subs = []
+        for _ in range(rng.randint(1, 3)):
+            subs.append(_edit_op(rng, mol, allow_atoms=False))
+            if rng.random() < 0.7:
+                subs.append(['read', rng.sample(READS, rng.randint(1, 4))])
+        return ['txn', int(rng.random() < 0.5), subs]
+    if r < 0.72:
+        return ['copy', int(rng.random() < 0.5)]
+    if r < 0.77:
+        atoms = list(mol._atoms)
+        new = rng.sample(range(1, 3 * len(atoms) + 5), len(atoms))
+        return ['remap', [[a, b] for a, b in zip(atoms, new)]]
+    if r < 0.81:
+        n = rng.randint(3, 6)
+        return ['union', graph_ints(n, [(i, i % n + 1) for i in range(1, n + 1)] if rng.random() < 0.6
+                                 else [(i, i + 1) for i in range(1, n)])]
+    if r < 0.86:
+        atoms = list(mol._atoms)
+        return ['substructure', sorted(rng.sample(atoms, rng.randint(max(1, len(atoms) // 2), len(atoms))))]
+    if r < 0.84:
+        return ['split', rng.randint(0, 5)]
+    # whole-molecule operations that keep (part of) the ring cache: preferably one that has something to do here
+    orders = {b.order for ms in mol._bonds.values() for b in ms.values()}
+    zs = {a.atomic_number for a in mol._atoms.values()}
+    fit = []
+    if 8 in orders:
+        fit += ['remove_coordinate_bonds', 'remove_coordinate_bonds', 'remove_hydrogen_bonds']
+    if 4 in orders:
+        fit += ['kekule']
+    if 2 in orders:
+        fit += ['thiele']
+    if 1 in zs:
+        fit += ['implicify_hydrogens', 'implicify_hydrogens']
+    if any((a._implicit_hydrogens or 0) > 0 for a in mol._atoms.values()):
+        fit += ['explicify_hydrogens', 'explicify_hydrogens']
+    if zs & {3, 11, 12, 19, 20, 26, 28, 29, 46, 78}:
+        fit += ['remove_metals', 'split_metal_salts']
+    if fit and rng.random() < 0.75:
+        return [rng.choice(fit)]
+    return [rng.choice(NULLARY)]
+
+
+def snapshot(mol, hist):
+    """what a caller sees on the live object right now, plus the wire form of its current atoms and bonds"""
+    ints = wire.mol_to_ints(mol)
+    fields, rings, err = impl_fields(mol, live=True)
+    return ints, (fields, rings, err, hist)
+
+
+def run_history(start, ops, judge=None):
+    """re-execute a recorded history; `judge(mol, ops_so_far)` is called after every top-level operation"""
+    mol, _ = wire.ints_to_mol(start, calc=True)
+    mol.fix_structure()
+    done = []
+    for op in ops:
+        try:
+            mol = apply_op(mol, op)
+        except Exception:
+            pass   # a rejected operation must leave the views consistent as well
+        done.append(op)
+        if judge is not None:
+            judge(mol, list(done))
+    return mol
+
+
+def gen_history(rng, start, steps):
+    """random history from `start` (wire ints): yields (ints, pre) snapshots after every operation"""
+    mol, _ = wire.ints_to_mol(start, calc=True)
+    mol.fix_structure()
+    for name in rng.sample(READS, rng.randint(2, len(READS))):   # views a caller looked at before editing
+        try:
+            getattr(mol, name)
+        except Exception:
+            pass
+    ops = []
+    for _ in range(steps):
+        op = _next_op(rng, mol)
+        try:
+            mol = apply_op(mol, op)
+        except Exception:
+            pass
+        ops.append(op)
+        if not mol._atoms:
+            break
+        yield snapshot(mol, {'start': start, 'ops': list(ops)})
+
+
+def history_failures(hist, apply_exemptions=True):
+    """property-level oracle for a history: clauses that fail on the live object after some operation (first point only)"""
+    found = []
+
+    def judge(mol, done):
+        if not found and mol._atoms:
+            fl = judge_mol(mol, fresh=False, apply_exemptions=apply_exemptions, renumbered=renumbering_in(done))
+            if fl:
+                found.extend((c, f'after {json.dumps(done[-1])} (operation {len(done)}): {d}') for c, d in fl)
+    run_history(hist['start'], hist['ops'], judge)
+    return found
+
+
+def shrink_history(hist, clause):
+    """drop operations (and sub-operations of transactions) while the same clause still fails"""
+    import time
+    deadline = time.time() + 30
+
+    def fails(h):
+        try:
+            return any(c == clause for c, _ in history_failures(h))
+        except Exception:
+            return False
+    ops = list(hist['ops'])
+    changed = True
+    while changed and time.time() < deadline:
+        changed = False
+        for i in range(len(ops) - 1, -1, -1):
+            cand = ops[:i] + ops[i + 1:]
+            if fails({'start': hist['start'], 'ops': cand}):
+                ops, changed = cand, True
+                continue
+            if ops[i][0] == 'txn':
+                for j in range(len(ops[i][2]) - 1, -1, -1):
+                    sub = ops[i][2][:j] + ops[i][2][j + 1:]
+                    cand = ops[:i] + [['txn', ops[i][1], sub]] + ops[i + 1:]
+                    if fails({'start': hist['start'], 'ops': cand}):
+                        ops, changed = cand, True
+    return {'start': hist['start'], 'ops': ops}
+
+
 def correspond(ctx):
     import multiprocessing
     import os
@@ -839,6 +1131,32 @@ def correspond(ctx):
             add(tag + '-renumbered', renumbered_ints(rng, ints))
     flush()
 
+    # 4b. edit histories: after every public operation of a random history (edits, committed and rolled-back transactions
+    #     with reads inside, copies, renumbering, unions, substructures, kekule/thiele, hydrogen and coordinate-bond
+    #     standardisation steps) the views of the LIVE object are compared with the model of its CURRENT atoms and bonds
+    starts = []
+    for smi in HISTORY_STARTS:
+        m = molgen.parse(smi)
+        if m is not None:
+            starts.append(wire.mol_to_ints(m))
+    for i in range(60 if ctx.quick else 600):
+        edges = molgen.ring_assembly(rng, max_rings=3)
+        n = max(v for e in edges for v in e)
+        if n <= 14:
+            starts.append(graph_ints(n, edges, rng.sample(edges, min(rng.choice([0, 1, 2]), len(edges)))))
+    for start in starts:
+        for _ in range(6 if ctx.quick else 16):
+            try:
+                for ints, pre in gen_history(rng, start, rng.randint(2, 6)):
+                    pending.append(('edit-history', ints, pre))
+                    last = pre[3]['ops'][-1]
+                    ctx.dist('history-op:' + (last[0] if last[0] != 'txn' else ('txn-commit' if last[1] else 'txn-rollback')))
+            except Exception as e:   # the harness itself failed on this history: recorded, never silently dropped
+                ctx.dist('history-generator-exception:' + type(e).__name__)
+        if len(pending) >= 4000:
+            flush()
+    flush()
+
     # 5. ring tuple helpers: exact functional models
     if ctx.build_ok:
         reqs, exp = [], []
@@ -885,8 +1203,15 @@ def correspond(ctx):
 def property_failures(ints, check_numbering=True, rng=None, apply_exemptions=True):
     """All clauses of C06 evaluated on the real code for one wire-encoded molecule. Returns list of (clause, detail).
     With `apply_exemptions` the clauses that the property text / the known finding exclude for the graph's class are dropped."""
-    from chython.exceptions import ImplementationError
     mol, _ = wire.ints_to_mol(ints)
+    return judge_mol(mol, True, ints, check_numbering, rng, apply_exemptions)
+
+
+def judge_mol(mol, fresh, ints=None, check_numbering=False, rng=None, apply_exemptions=True, renumbered=False):
+    """the clauses of C06 on one molecule object, judged against its current `_bonds` only (independent recomputation).
+    `fresh`: the object was just built from wire ints (labels are computed here); otherwise it is a live object with an
+    edit history and everything is read as a caller would see it."""
+    from chython.exceptions import ImplementationError
     adj = ns_adj(mol)
     full = {n: set(ms) for n, ms in mol._bonds.items()}
     gap = gap_class(adj) if apply_exemptions else None
@@ -931,7 +1256,7 @@ def property_failures(ints, check_numbering=True, rng=None, apply_exemptions=Tru
         add('atoms-rings', f'atoms_rings={mol.atoms_rings}')
     if mol.atoms_rings_sizes != {n: {len(r) for r in rs} for n, rs in ar.items()}:
         add('atoms-rings-sizes', f'atoms_rings_sizes={mol.atoms_rings_sizes}')
-    want = sorted(r for r in rings if all(mol._bonds[a].get(b) is not None and mol._bonds[a][b].order == 4
+    want = sorted(r for r in rings if all(mol._bonds.get(a, {}).get(b) is not None and mol._bonds[a][b].order == 4
                                           for a, b in zip(r, r[1:] + r[:1])))
     try:
         got = sorted(tuple(r) for r in mol.aromatic_rings)
@@ -939,17 +1264,26 @@ def property_failures(ints, check_numbering=True, rng=None, apply_exemptions=Tru
         got = 'raises ' + type(e).__name__
     if got != want:
         add('aromatic-rings', f'aromatic_rings={got}, reported rings whose bonds all have order 4: {want}')
-    mol.calc_labels()
+    if fresh:
+        mol.calc_labels()
     for n, ms in mol._bonds.items():
         a = mol._atoms[n]
-        if bool(a._in_ring) != (n in ar) or set(a._ring_sizes) != {len(r) for r in ar.get(n, ())}:
-            add('atom-marks', f'atom {n}: in_ring={a._in_ring} ring_sizes={a._ring_sizes}, rings through it {ar.get(n)}')
+        in_ring, rs_mark = getattr(a, '_in_ring', None), getattr(a, '_ring_sizes', None) or set()
+        if renumbered and apply_exemptions:
+            # known finding REMAP_SIG: ring_sizes follow the basis chosen before the renumbering; only what is independent of
+            # the choice of basis is judged (in_ring, emptiness of ring_sizes, in_ring of non-coordinate bonds)
+            atom_ok = bool(in_ring) == (n in ar) and bool(rs_mark) == (n in ar)
+        else:
+            atom_ok = bool(in_ring) == (n in ar) and set(rs_mark) == {len(r) for r in ar.get(n, ())}
+        if not atom_ok:
+            add('atom-marks', f'atom {n}: in_ring={in_ring} ring_sizes={rs_mark}, reported rings through it {ar.get(n)}')
             break
-        bad = [(m, b) for m, b in ms.items() if bool(b._in_ring) != bool(set(ar.get(n, ())) & set(ar.get(m, ())))]
+        bad = [(m, b) for m, b in ms.items() if bool(b._in_ring) != bool(set(ar.get(n, ())) & set(ar.get(m, ())))
+               and not (renumbered and apply_exemptions and b.order == 8)]
         if bad:
             add('bond-marks', f'bond {n}-{bad[0][0]}: in_ring={bad[0][1]._in_ring}, rings {ar.get(n)} / {ar.get(bad[0][0])}')
             break
-    if check_numbering and rng is not None and not out:
+    if check_numbering and rng is not None and ints is not None and not out:
         for _ in range(3):
             m2, _ = wire.ints_to_mol(renumbered_ints(rng, ints))
             try:
@@ -1030,8 +1364,26 @@ def search(ctx):
             ctx.fail(f'C06/{clause}', f'{clause}: {det}', {'wire': small, 'clause': clause})
         return bool(fl)
 
+    def try_history(hist):
+        try:
+            fl = history_failures(hist)
+        except Exception as e:
+            fl = [('oracle-crash', type(e).__name__)]
+        for clause, detail in fl:
+            sig = clause + '/after-edit-history'
+            if sig in seen_sig:
+                continue
+            seen_sig.add(sig)
+            small = shrink_history(hist, clause)
+            det = next((d for c, d in history_failures(small) if c == clause), detail)
+            ctx.fail(f'C06/{sig}', f'{clause} on a live molecule {det}', {'history': small, 'clause': clause})
+        return bool(fl)
+
     # 1. the disagreeing cases and renumberings of them
     for ints in _state['suspects'][:200]:
+        if isinstance(ints, dict):
+            try_history(ints['history'])
+            continue
         try_ints(ints)
         for _ in range(3):
             try_ints(renumbered_ints(rng, ints))
@@ -1057,6 +1409,11 @@ def search(ctx):
 
 def probe(inp):
     import random
+    if 'history' in inp:
+        fl = history_failures(inp['history'], apply_exemptions=not inp.get('ignore_exemptions', False))
+        if inp.get('clause'):
+            fl = [x for x in fl if x[0] == inp['clause']]
+        return bool(fl), '; '.join(f'{c}: {d}' for c, d in fl) or 'all clauses of C06 hold after every operation of this history'
     exemptions = not inp.get('ignore_exemptions', False)
     fl = property_failures(inp['wire'], rng=random.Random(0), apply_exemptions=exemptions,
                            check_numbering=inp.get('clause') in (None, 'numbering-dependent'))
